@@ -1,6 +1,7 @@
 package main
 
 import (
+	"fmt"
 	"go/constant"
 	"go/token"
 	"go/types"
@@ -17,17 +18,30 @@ func deref(t types.Type) types.Type {
 	return t
 }
 
-// typeKey gives "short.Name" for named types ("pb.Rpc", "goat.handler", "sync.Mutex"), else the type string.
+// typeKey gives "short.Name" for named types ("pb.Rpc", "goat.handler", "sync.Mutex"), else a type string
+// with aliases resolved and short package names.
 func typeKey(t types.Type) string {
-	t = deref(t)
-	if a, ok := t.(*types.Alias); ok {
-		t = types.Unalias(a)
-	}
-	if n, ok := t.(*types.Named); ok {
-		if n.Obj().Pkg() == nil {
-			return n.Obj().Name()
+	return typeStr(deref(t))
+}
+
+func typeStr(t types.Type) string {
+	t = types.Unalias(t)
+	switch x := t.(type) {
+	case *types.Named:
+		if x.Obj().Pkg() == nil {
+			return x.Obj().Name()
 		}
-		return shortPkg(n.Obj().Pkg().Path()) + "." + n.Obj().Name()
+		return shortPkg(x.Obj().Pkg().Path()) + "." + x.Obj().Name()
+	case *types.Pointer:
+		return "*" + typeStr(x.Elem())
+	case *types.Slice:
+		return "[]" + typeStr(x.Elem())
+	case *types.Array:
+		return fmt.Sprintf("[%d]%s", x.Len(), typeStr(x.Elem()))
+	case *types.Chan:
+		return "chan " + typeStr(x.Elem())
+	case *types.Map:
+		return "map[" + typeStr(x.Key()) + "]" + typeStr(x.Elem())
 	}
 	return types.TypeString(t, func(p *types.Package) string { return shortPkg(p.Path()) })
 }
